@@ -2,6 +2,7 @@
   C01 — Traffic moves to new targets only after all of them pass a health probe.
 -/
 import KamalProxy.Proofs.Proxy
+import KamalProxy.Proofs.ProxyInv
 namespace KamalProxy.C01
 open KamalProxy KamalProxy.Proxy
 
@@ -55,6 +56,52 @@ theorem C01_claim_from_rotation {w w' : World} {lb rid tid : Nat} (h : claim w l
     ∃ l, getL w lb = some l ∧ tid ∈ l.healthy := by
   obtain ⟨l, _, hl, hm, _⟩ := claim_some h
   exact ⟨l, hl, hm⟩
+
+/-! ### whole-schedule statements (by induction over arbitrary schedules, `Proofs/ProxyInv.lean`) -/
+
+/-- **C01, for every schedule.**  After any schedule whatsoever — any number of deploys, rollout deploys,
+    pauses, stops, resumes, removals, requests, probe scripts, hook releases and clock advances, interleaved
+    in any way the interpreter admits — every load balancer that a service object refers to (active or
+    rollout slot, installed or not yet installed) exists, and *every one* of its targets has raised its
+    became-healthy signal. A load balancer whose targets have not all passed therefore never carries
+    traffic, whatever overlaps with the deploy that created it. -/
+theorem C01_global_slots (ops : List Op) (o : Obj) (ho : o ∈ (runOps ops).objs) (lb : Nat)
+    (hlb : o.active = some lb ∨ o.rollout = some lb) :
+    ∃ l, getL (runOps ops) lb = some l ∧
+      ∀ tid ∈ l.targets, ∃ t, getT (runOps ops) tid = some t ∧ t.signaled = true := by
+  have j := J_runOps ops
+  apply j.objs o ho lb
+  unfold refs
+  simp only [List.mem_append, Option.mem_toList]
+  exact hlb
+
+/-- … every request that has picked a load balancer picked one all of whose targets had signalled, and every
+    request in flight is at a target that has signalled. -/
+theorem C01_global_requests (ops : List Op) (r : Req) (hr : r ∈ (runOps ops).reqs) :
+    (∀ oid lb, r.phase = .picked oid lb →
+      ∃ l, getL (runOps ops) lb = some l ∧ ∀ tid ∈ l.targets, ∃ t, getT (runOps ops) tid = some t ∧ t.signaled = true) ∧
+    (∀ tid, r.phase = .inflight tid → ∃ t, getT (runOps ops) tid = some t ∧ t.signaled = true) := by
+  have j := (J_runOps ops).reqs r hr
+  unfold PhiR at j
+  refine ⟨fun oid lb h => ?_, fun tid h => ?_⟩
+  · rw [h] at j; exact j
+  · rw [h] at j; exact j
+
+/-- … and a deploy command that has got past its wait (about to switch, or switched and about to install)
+    holds a load balancer all of whose targets have signalled; one that is still waiting holds one that exists. -/
+theorem C01_global_commands (ops : List Op) (c : Cmd) (hc : c ∈ (runOps ops).cmds) :
+    (∀ oid lb, c.phase = .healthy oid lb → lbOK (runOps ops) lb) ∧
+    (∀ oid lb rep, c.phase = .lbset oid lb rep → lbOK (runOps ops) lb) := by
+  have j := (J_runOps ops).cmds c hc
+  unfold PhiC at j
+  refine ⟨fun oid lb h => ?_, fun oid lb rep h => ?_⟩
+  · rw [h] at j; exact j
+  · rw [h] at j; exact j
+
+/-- the rotation of every load balancer is drawn from its own targets, after every schedule -/
+theorem C01_global_rotation (ops : List Op) (l : Lb) (hl : l ∈ (runOps ops).lbs) (tid : Nat) (h : tid ∈ l.healthy) :
+    tid ∈ l.targets :=
+  (J_runOps ops).rot l hl tid h
 
 def s1 := asciiB "s1"
 
